@@ -712,8 +712,9 @@ pub fn is_c13(sig: &str) -> bool {
 /// property into `report` and returns an evidence object for the part.
 pub fn run_part(tier: Tier, prefix: &str, keep: fn(&str) -> bool, report: &mut Report) -> Result<Value, String> {
     let (r, st) = explore(tier, prefix, keep)?;
+    let clean = r.violations.is_empty();
     report.merge(r);
-    if st.events_delivered == 0 || st.multi_chunk == 0 || st.classes < 5 {
+    if clean && (st.events_delivered == 0 || st.multi_chunk == 0 || st.classes < 5) {
         return Err(format!("vacuous events-world run ({} events delivered, {} multi-message answers, {} outcome classes)", st.events_delivered, st.multi_chunk, st.classes));
     }
     Ok(json!({"scenarios": st.scenarios, "events_delivered_and_compared": st.events_delivered, "report_messages": st.messages, "answers_spanning_several_messages": st.multi_chunk, "outcome_classes": st.classes,
